@@ -165,8 +165,13 @@ def c08(tier, seed):
     st4 = {"distinct": st4["distinct"] + stL["distinct"], "generated": st4["generated"] + stL["generated"]}
     nres4 += nresL
     secs4 += secsL
+    fP, covP = c08_paths(tier, seed)
+    findings += fP
+    st4 = {"distinct": st4["distinct"] + covP["states"], "generated": st4["generated"] + covP["transitions"]}
+    nres4 += covP["rows"]
     cov = {
         "states": st["distinct"] + st4["distinct"], "transitions": st["generated"] + st4["generated"], "traces_validated_against_impl": nres + nres4,
+        "accumulated_path_delays": covP,
         "samples": [{"a": table["classes"][3]["ivs"][1], "b": table["classes"][3]["ivs"][5], "lt": table["classes"][3]["lt"][1][5]},
                     table["adds"][100], table["applies"][50]],
         "evaluations": nres + nres4,
@@ -177,12 +182,123 @@ def c08(tier, seed):
                 f"Plus all {nivs4} intervals of length 4 (cutoff<=pre_length<=4, tier values 0..1; {npairs4} same-class pairs, {len(table4['adds'])} sums, "
                 f"{len(table4['applies'])} applications; pointwise order over times with tier values 0..2). "
                 f"Plus all {nivsL} intervals of length<=3 over the tier values {{0, 300}} built from fresh int objects ({npairsL} pairs; times over {{0,1,300,301}}). "
+                f"Plus the delays mosaik ACCUMULATES (World.cache_triggering_ancestors, update_min) for {covP['rows']} grouped connection graphs of 2-4 simulators "
+                f"({covP['recorded_pairs']} recorded (simulator, ancestor) delays) against the path semantics of PathDelays.tla (recorded iff a path exists, is a path's delay, not dominated by another path). "
                 "Each recorded result is one validated 'trace'; all are distinct inputs.",
         "exhaustive": True,
         "checker_cmd": "tlc -workers 1 -config TieredOrder.cfg TieredOrder (TRACE_FILE=<table>), twice",
         "tlc_secs": round(secs + secs4, 1),
     }
     return checklib.conclude("C08", tier, seed, findings, cov, t0, ASSUME, max_report=3)
+
+
+# ---- C08, second part: the delays mosaik accumulates over trigger paths (update_min / min over delays) --------------
+
+
+def c08_path_scenarios(tier, seed):
+    """Connection graphs over 2-4 simulators in the group tree root / [1] / [1,2] / [3] / [1,2,4], trigger connections that are
+    plain, time-shifted or (inside a shared group) weak: every graph over 2 simulators with <= 3 and over 3 simulators with <= 3
+    connections (thorough: 4), plus seeded graphs over 3-4 simulators with 3-6 connections."""
+    import random
+
+    from harness import scn as S_
+
+    pool = [[], [1], [1, 2], [3], [1, 2, 4]]
+
+    def options(gps):
+        opts = []
+        for a in range(len(gps)):
+            for b in range(len(gps)):
+                if a == b:
+                    continue
+                base = {"src": C06_SIDS[a], "dst": C06_SIDS[b], "sa": "e", "da": "ti"}
+                opts += [dict(base), dict(base, shift=1)]
+                if S_.can_weak(gps[a], gps[b]):
+                    opts.append(dict(base, weak=True))
+        return opts
+
+    out = []
+    for nsims, maxc in ((2, 3), (3, 4 if tier == "thorough" else 3)):
+        for pl in itertools.combinations_with_replacement(range(len(pool)), nsims):
+            gps = [pool[i] for i in pl]
+            if not any(gps):
+                continue  # no groups: all delays have one tier
+            sims = [{"sid": C06_SIDS[i], "type": "hybrid", "gpath": list(gps[i])} for i in range(nsims)]
+            opts = options(gps)
+            for k in range(1, maxc + 1):
+                for combo in itertools.combinations(range(len(opts)), k):
+                    out.append({"sims": sims, "conns": [dict(opts[i]) for i in combo], "until": 1, "lazy": False})
+    rng = random.Random(f"c08p|{seed}")
+    for _ in range(3000 if tier == "quick" else 30000):
+        n = rng.choice([3, 4, 4])
+        gps = [rng.choice(pool) for _ in range(n)]
+        opts = options(gps)
+        combo = sorted(set(rng.randrange(len(opts)) for _ in range(rng.randint(3, 6))))
+        order = C06_SIDS[:n]
+        rng.shuffle(order)
+        out.append({"sims": [{"sid": C06_SIDS[i], "type": "hybrid", "gpath": list(gps[i])} for i in range(n)],
+                    "conns": [dict(opts[i]) for i in combo], "until": 1, "lazy": False, "order": order})
+    return out
+
+
+def _c08_path_row(scn):
+    from harness import behave, drive, scn as S_
+
+    got = {}
+
+    def hook(ctx):
+        w = ctx.world
+        try:
+            w.cache_triggering_ancestors()
+            got["out"] = "ok"
+        except AssertionError as e:
+            got["out"] = "assert" if "incomparable" in str(e) else "other"
+            got["msg"] = str(e)[:120]
+        except BaseException as e:  # noqa: BLE001
+            got["out"], got["msg"] = "other", f"{type(e).__name__}: {e}"[:120]
+        got["anc"] = [{"s": sid, "a": a.sid, "iv": {"t": list(d.tiers), "c": d.cutoff, "p": d.pre_length}}
+                      for sid, sim in w.sims.items() for a, d in sim.triggering_ancestors.items()] if got["out"] == "ok" else []
+        for sim in w.sims.values():
+            sim.triggering_ancestors.clear()
+
+    ctx = drive.execute(scn, behave.RandomBehaviour(0, p_event=0.0, ev_next=(None,)), behave.FifoPolicy(), hooks=hook)
+    if ctx.outcome.get("phase") == "build" or "out" not in got:
+        return None
+    if ctx.outcome["r"] == "ScenarioError":
+        return None  # refused by the cycle check: mosaik never accumulates trigger delays for such a scenario
+    return {"scn": S_.tla_scn(ctx.scn), "out": got["out"], "anc": got["anc"], "msg": got.get("msg", "")}
+
+
+def _c08_path_rows(scns):
+    return [r for r in (_c08_path_row(s) for s in scns) if r is not None]
+
+
+def c08_paths(tier, seed):
+    import concurrent.futures as cf
+    import multiprocessing as mp
+
+    scns = c08_path_scenarios(tier, seed)
+    chunks = [scns[i:i + 300] for i in range(0, len(scns), 300)]
+    with mp.get_context("fork").Pool(min(16, os.cpu_count() or 4)) as pool:
+        rows = [r for rs in pool.map(_c08_path_rows, chunks) for r in rs]
+    parts = [rows[i:i + 3000] for i in range(0, len(rows), 3000)]
+    with cf.ThreadPoolExecutor(max_workers=8) as ex:
+        results = list(ex.map(lambda part: _judge_rows("PathDelays", "R08P", part), parts))
+    findings, states, trans = [], 0, 0
+    for part, (viol, st, secs) in zip(parts, results):
+        states += st["distinct"]
+        trans += st["generated"]
+        for clause, n in viol:
+            row = part[n]
+            findings.append(checklib.Finding("C08", clause, case={"id": [clause, "paths", json.dumps(row["scn"]["conns"])[:200]], "kind": "c08p", "scn": row["scn"]},
+                                             detail=json.dumps({"anc": row["anc"]})[:600], extra={"row": row}))
+    for r in rows:
+        if r["out"] == "other":
+            findings.append(checklib.Finding("C08", "C08_accumulating_delays_failed", case={"id": ["paths-other", r["msg"]], "kind": "c08p", "scn": r["scn"]}, detail=r["msg"]))
+    import collections
+
+    return findings, {"rows": len(rows), "states": states, "transitions": trans, "outcomes": dict(collections.Counter(r["out"] for r in rows)),
+                      "recorded_pairs": sum(len(r["anc"]) for r in rows)}
 
 
 RUN = {"C08": c08}
@@ -272,6 +388,8 @@ def _c06_row(scn):
     o = ctx.outcome
     if o.get("phase") == "build":
         return None
+    if getattr(ctx, "refused_accepted", False):
+        return {"scn": S.tla_scn(ctx.scn), "out": "other", "path": [], "steps": 0, "msg": "a connect() call with an unknown source attribute was accepted"}
     steps = sum(1 for e in ctx.trace if e["k"] == "SB")
     if o["r"] == "ok":
         out = "accepted"
@@ -329,6 +447,20 @@ def c06(tier, seed):
     nexh = len(scns) - nsample
     rings = c06_rings(tier, rng)
     scns += rings
+    # history: the same scenarios with connect() calls that mosaik REFUSES (unknown attribute; the script catches the error) made
+    # before / after the scenario's connections - plain or time-shifted, between any ordered pair: the verdict of run() is a
+    # function of the connections that exist
+    hist = []
+    pool = list(c06_scenarios(2, 2)) + [sc for sc in scns[nexh:nexh + nsample] if len(sc["sims"]) == 3][: (400 if tier == "quick" else 4000)]
+    for sc in pool:
+        sids = [x["sid"] for x in sc["sims"]]
+        for _ in range(2):
+            a, b = rng.choice(sids), rng.choice(sids)
+            if a == b:
+                continue
+            call = {"src": a, "dst": b, "when": rng.choice(["before", "after"]), "kw": rng.choice([{}, {}, {"time_shifted": True, "initial_data": {"zz_no_such_output": 0}}])}
+            hist.append(dict(sc, refused_calls=[call]))
+    scns += hist
     chunks = [scns[i:i + 500] for i in range(0, len(scns), 500)]
     with mp.get_context("fork").Pool(min(16, os.cpu_count() or 4)) as pool:
         rows = [r for rs in pool.map(_c06_rows, chunks) for r in rs]
@@ -358,7 +490,7 @@ def c06(tier, seed):
         "evaluations": len(rows), "distinct_nontrivial": len(rows),
         "rule": f"every connection multigraph (kinds plain / time-shifted / weak / weak+time-shifted / async_requests, every ordered pair incl. self) over 2 simulators with <= "
                 f"{4 if tier == 'thorough' else 3} and over 3 simulators with <= {3 if tier == 'thorough' else 2} distinct connections, in every placement "
-                f"(up to renaming) in the group tree root/[1]/[1,2]/[3] ({nexh} scenarios, exhaustive), plus {nsample} seeded scenarios of 3-4 simulators with 3-5 connections, plus {len(rings)} rings of 4-{7 if tier == 'thorough' else 6} simulators with time-shifted overlays in random start orders; "
+                f"(up to renaming) in the group tree root/[1]/[1,2]/[3] ({nexh} scenarios, exhaustive), plus {nsample} seeded scenarios of 3-4 simulators with 3-5 connections, plus {len(rings)} rings of 4-{7 if tier == 'thorough' else 6} simulators with time-shifted overlays in random start orders, plus {len(hist)} of these scenarios with a REFUSED connect() call (unknown attribute, caught by the script) before / after their connections; "
                 "each is built with the real World/connect and run(until=1); one row per scenario, all distinct",
         "exhaustive": False,
         "outcomes": dict(outs),
@@ -674,6 +806,8 @@ def c12_siblings(rows, universe, limit, rng):
     names = {"attrs": "attrs", "tr": "trigger", "nt": "non-trigger", "ps": "persistent", "np": "non-persistent"}
     for typ, kj in keys[:limit]:
         pair = by[(typ, kj)]
+        # (the announced API version must not matter for the classification: older ones go through mosaik's adapters)
+        ver = rng.choice(["3.0", "3.0", "3.0.16", "2.4", "2.2", "2.0", "2"])
         for first in (False, True):
             models = {}
             for any_ in (first, not first):
@@ -685,7 +819,7 @@ def c12_siblings(rows, universe, limit, rng):
                 if any_:
                     d["any_inputs"] = True
                 models["Many" if any_ else "Mno"] = d
-            _C12Sim.META = {"api_version": "3.0", "type": typ, "models": models}
+            _C12Sim.META = {"api_version": ver, "type": typ, "models": models}
             with contextlib.redirect_stdout(io.StringIO()), warnings.catch_warnings():
                 warnings.simplefilter("ignore")
                 world = mosaik.World({"S": {"python": "checks.pure:_C12Sim"}}, skip_greetings=True)
@@ -706,7 +840,7 @@ def c12_siblings(rows, universe, limit, rng):
             for any_, name in ((False, "Mno"), (True, "Many")):
                 g, w = got[name], pair[any_]
                 if g["ok"] != want_ok or (g["ok"] and any(g[n] != w[n] for n in ("rnt", "rtr", "rps", "rnp"))):
-                    bad.append({"type": typ, "lists": json.loads(kj), "any_inputs": any_, "first_model_has_any_inputs": first,
+                    bad.append({"type": typ, "api_version": ver, "lists": json.loads(kj), "any_inputs": any_, "first_model_has_any_inputs": first,
                                 "started": g, "alone": {n: w[n] for n in ("ok", "rnt", "rtr", "rps", "rnp")}})
     return bad, min(limit, len(keys)) * 2
 
@@ -783,7 +917,7 @@ def c12(tier, seed):
     sib_bad, sib_n = c12_siblings(c12_rows(universe) if False else rows[:len(rows) - len(rows2) - len(rows3)], universe,
                                   1500 if tier == "quick" else 10**9, _random.Random(f"c12sib|{seed}"))
     for b in sib_bad[:50]:
-        findings.append(checklib.Finding("C12", "C12_classification_depends_on_a_sibling_model_of_the_same_simulator",
+        findings.append(checklib.Finding("C12", "C12_classification_at_start_differs_from_the_description_alone__sibling_model_or_api_version",
                                          case={"id": ["sibling", b["type"], b["lists"], b["any_inputs"], b["first_model_has_any_inputs"]], "kind": "c12", "row": b},
                                          detail=json.dumps(b)[:600], extra={"row": b}))
     cov = {
@@ -793,7 +927,7 @@ def c12(tier, seed):
         "evaluations": len(rows) + len(algebra), "distinct_nontrivial": len(rows) + len(algebra),
         "rule": f"every model description with each of attrs / trigger / non-trigger / persistent / non-persistent absent or any subset of {list(universe)} "
                 f"x any_inputs x 3 simulator types ({len(rows)} descriptions; real parse_attrs; result sets compared by membership on the universe plus the witness 'z' "
-                f"for 'any other attribute'); the same over the name universes {list(odd)} and ['q.x', 'q-x'] (names are opaque); plus {sib_n} simulator starts (World.start) of a description together with a sibling model that differs only in any_inputs, both orders; plus every InOrOutSet expression x op y, op in |,&,-,==,in over the finite/co-finite sets over the same universe ({len(algebra)} rows)",
+                f"for 'any other attribute'); the same over the name universes {list(odd)} and ['q.x', 'q-x'] (names are opaque); plus {sib_n} simulator starts (World.start) of a description together with a sibling model that differs only in any_inputs, both orders, announcing API version 3.0 / 3.0.16 / 2.4 / 2.2 / 2.0 / 2; plus every InOrOutSet expression x op y, op in |,&,-,==,in over the finite/co-finite sets over the same universe ({len(algebra)} rows)",
         "exhaustive": True,
         "accepted": sum(1 for r in rows if r["ok"]),
         "record_secs": round(t1 - t0, 1),
